@@ -333,6 +333,11 @@ class RunGeneration(Unit):
         # uniform supergraphs: jax.lax.scan calls the same function once per generation with the stacked timings of ALL slots of a kind under the key
         # of the kind's first slot - i.e. key a_0 with the timing values (run mask, seq, ...) of a later slot
         yield "uniform-scan: key of the first slot, timings of a later slot", dict(record=True, rs=aw_rs(True), timing="a_1")
+        # tracing-time failure of the masked execution: lax.cond cannot unify the step's result with the no-op result (e.g. a payload dtype that differs from the declared default output)
+        yield "lax.cond cannot unify its branches (TypeError)", dict(record=False, rs=aw_rs(False), timing="a_0", cond_raises="TypeError")
+
+    def opts(self, cfg):
+        return {"cond_raises": cfg["cond_raises"]} if cfg.get("cond_raises") else {}
 
     def run(self, ctx):
         ex, cfg = ctx.ex, ctx.cfg
@@ -346,7 +351,12 @@ class RunGeneration(Unit):
         t = W.slots[cfg["timing"]]
         seq, pred = t.f["seq"], t.f["run"]
         ctx.require(z3.And(0 <= seq, seq < W.rows))     # Graph.init_record sizes the record by the number of scheduled steps; masked slots carry seq 0
-        ret = ex.call(run_gen, [W.gs, {"a_0": t}], {})
+        try:
+            ret = ex.call(run_gen, [W.gs, {"a_0": t}], {})
+        except RaiseEx as e:
+            ctx.ensure("C06 the only error of a generation is the propagated tracing failure of the masked step: no graph state is produced in which a step ran outside its run mask",
+                       z3.BoolVal(bool(cfg.get("cond_raises")) and e.exc == cfg.get("cond_raises")), props=("C06",))
+            return
         ok = isinstance(ret, tuple) and len(ret) == 2 and isinstance(ret[0], Rec)
         ctx.ensure("returns (graph_state, graph_state)", z3.BoolVal(ok and ret[0] is ret[1]))
         if not ok:
@@ -410,6 +420,11 @@ class RunGeneration(Unit):
             ctx.ensure("no record requested => none created", z3.BoolVal("record" not in gs2.f["aux"]), props=("C13",))
 
     def replay(self, label, clause, probes, model):
+        if "cannot unify" in label:
+            # the same situation on the real pipeline: a node whose payload dtype differs from its declared default output, in a multi-rate jittery graph with masked slots
+            return {"kind": "bounded_case", "script": "c09_compiled_api.py",
+                    "case": dict(rates=[20.0, 5.0, 2.0], win=[2, 1, 2, 1], ts_max=1.5, eps=2, key=11, jitter=True, mode="MCS", prune=False, skip=False, names="plain", start_step=0, start_eps=0, n=2,
+                                 jit=True, given_params=False, mismatch=True)}
         return None
 
 
